@@ -120,7 +120,7 @@ def cur_attrs(name, p):
 
 
 # ----------------------------------------------------------------------------- operations
-# an op is a tuple: ('set', attr, value) | ('reassign', attr) | ('call',) | ('read',) | ('conv', sides) | ('freq', sides|None)
+# an op is a tuple: ('set', attr, value) | ('setnp', attr, value, numpy scalar type name) | ('reassign', attr) | ('call',) | ('read',) | ('conv', sides) | ('freq', sides|None)
 # values of 'data' are dataset ids.
 
 def apply_op(p, op):
@@ -130,6 +130,8 @@ def apply_op(p, op):
         if k == 'set':
             v = DATA[op[2]] if op[1] == 'data' else op[2]
             setattr(p, op[1], v); return 'ok', None
+        if k == 'setnp':                        # the same value as a numpy scalar (np.int64(3), np.float32(2.0), np.bool_(True))
+            setattr(p, op[1], getattr(np, op[3])(op[2])); return 'ok', None
         if k == 'reassign':
             setattr(p, op[1], getattr(p, op[1])); return 'ok', None
         if k == 'call':
@@ -168,7 +170,7 @@ def _akey(name, attrs):
     for a in ATTRS:
         if a in attrs:
             v = attrs[a]
-            out.append((a, data_id(v) if a == 'data' else v))
+            out.append((a, data_id(v) if a == 'data' else (type(v).__name__, v)))     # 3 and numpy.int64(3) are different keys
     return tuple(out)
 
 
@@ -215,6 +217,10 @@ def final_checks(name, p, reassign=True):
     sides = p.sides
     if psd is None:
         return [('read_none', 'psd is None after a read')]
+    if fresh_psd(name, attrs, 'default')[0] is None:
+        # the estimator rejects the final attribute values on a fresh object (e.g. ar_order = numpy.int64(3), equal to the order 3 the
+        # cached estimate was computed with, but refused by minvar's integer check): the history ends outside the estimator's domain
+        return []
     ref, out = fresh_psd(name, attrs, sides)
     if ref is None:
         bad.append(('fresh_refuses', 'a fresh object refuses sides=%r (%s) that the object reports' % (sides, out)))
@@ -238,7 +244,12 @@ def final_checks(name, p, reassign=True):
             setattr(p, a, getattr(p, a))
             again = p.psd
         except Exception as e:
-            bad.append(('reassign_idempotent', 're-assigning %s raises %s' % (a, type(e).__name__))); break
+            # legitimate only if the estimator itself rejects these attribute values (a fresh object raises the same): e.g. a cached
+            # estimate for order 3 with ar_order = numpy.int16(3), which minvar's argument check refuses on recomputation
+            ref0, out0 = fresh_psd(name, attrs, 'default')
+            if not (ref0 is None and out0 == type(e).__name__):
+                bad.append(('reassign_idempotent', 're-assigning %s raises %s' % (a, type(e).__name__)))
+            break
         sides2 = p.sides
         if sides2 == sides:
             same = close(again, psd)
@@ -254,6 +265,8 @@ def conv_check(name, p, sides_arg, value):
     """the value get_converted_psd returned, against a fresh object converted to the same sides.
     p is the object right after the call (not mutated here)."""
     attrs = cur_attrs(name, p)
+    if fresh_psd(name, attrs, 'default')[0] is None:
+        return []                               # outside the estimator's domain (see final_checks)
     ref, out = fresh_psd(name, attrs, sides_arg)
     if value is None:
         return [('converted_none', 'get_converted_psd(%r) returns None' % sides_arg)]
@@ -279,6 +292,8 @@ def run_history(name, did, ops, check_conv=True):
             bad += [(c, w, i) for c, w in conv_check(name, p, op[1], val)]
         if out == 'ok' and op[0] == 'read':
             ref, _ = fresh_psd(name, cur_attrs(name, p), p.sides)
+            if fresh_psd(name, cur_attrs(name, p), 'default')[0] is None:
+                continue                        # outside the estimator's domain (see final_checks)
             if val is None or ref is None or not close(val, ref):
                 bad.append(('read_is_fresh', 'psd read inside the history differs from a fresh object', i))
     bad += [(c, w, len(ops)) for c, w in final_checks(name, p)]
